@@ -8,7 +8,7 @@
    the absolute storage bits [8*cf_offset + cf_bitshift, + cf_bitsize). *)
 From Coq Require Import ZArith List Bool Lia.
 Import ListNotations.
-From Cffi Require Import C01.Gen C01.Spec C01.Model C01.Arith C01.Proofs.
+From Cffi Require Import C01.Gen C01.Spec C01.Model C01.Arith C01.Proofs C01.Proofs2.
 Open Scope Z_scope.
 
 (* "No declaration in this class is rejected": every declaration of the class (see
@@ -81,6 +81,71 @@ Theorem C01_field_step_invariant :
               inv st' (place_member u P c named s a sub bits).
 Proof. exact step_agrees. Qed.
 Print Assumptions C01_field_step_invariant.
+
+(* A field access stays inside the object.  For every declaration of the class whose bit-field
+   types have size <= alignment (Spec.bf_size_le_align: all integer types and _Bool on x86-64), every
+   entry (cf_type, cf_offset, cf_bitshift, cf_bitsize) the layout function emits — anonymous members'
+   fields included, at any depth — satisfies: the offset is non-negative; the field's storage
+   (size_of its type = the ct_size the layout function itself computes; the whole storage unit for a
+   bit-field; 0 for the flexible tail `T x[]`) ends inside ffi.sizeof; a bit-field has width >= 1, a
+   non-negative shift, all its bits inside its unit, and an integer declared type.  These are the
+   premises `placement T w sh` and `off + isize T <= length mem` of C02_isolated_object /
+   C02_fields_noninterfere / C03_store_frame: read_raw_*_data / write_raw_integer_data at
+   data + cf_offset never touch a byte outside the struct.  (Second loop invariant, C01/Proofs2.v.) *)
+Theorem C01_fields_within_object : forall t ti,
+  in_class t -> bf_size_le_align t -> cffi_layout t = Ok ti ->
+  Forall (fun c => 0 <= cf_offset c /\ cf_offset c + size_of (cf_type c) <= ti_size ti /\
+                   (0 <= cf_bitsize c ->
+                    1 <= cf_bitsize c /\ 0 <= cf_bitshift c /\
+                    cf_bitshift c + cf_bitsize c <= 8 * size_of (cf_type c) /\
+                    bitfield_capable (cf_type c) = true)) (ti_fields ti).
+Proof. intros t ti Hc Hb E. exact (proj1 (layout_within t Hc ti E) Hb). Qed.
+Print Assumptions C01_fields_within_object.
+
+(* bf_size_le_align cannot be dropped: with sizeof(T) = 8, alignof(T) = 4 (long long on i386; not an
+   x86-64 type) `struct { T x:3; }` has size 4 and an 8-byte storage unit.  Model-level fact about
+   the quantified superset, not a defect of cffi on this platform. *)
+Theorem C01_fields_within_needs_size_le_align :
+  exists t ti, in_class t /\ cffi_layout t = Ok ti /\
+    ~ Forall (field_within (ti_size ti)) (ti_fields ti).
+Proof.
+  exists (TAgg false 0 [(true, TPrim 8 4 true, 3)]). eexists. split; [|split; [vm_compute; reflexivity|]].
+  - cbn. repeat split; auto; try lia; try discriminate; try (exists 2; split; [lia|reflexivity]).
+    right. repeat split; try lia. do 2 eexists. split; [reflexivity|lia].
+  - intros H. inversion H as [|? ? (H0 & H1 & _) _]; subst. vm_compute in H1. apply H1. reflexivity.
+Qed.
+Print Assumptions C01_fields_within_needs_size_le_align.
+
+(* Distinct fields of a struct occupy disjoint storage.  For every declaration of the class with no
+   union among the aggregate and its anonymous members (Spec.union_free; the members of a union
+   overlap by design), the emitted fields, in order, occupy consecutive non-overlapping absolute bit
+   ranges [fstart, fend) — the bits 8*cf_offset + cf_bitshift .. + cf_bitsize of a bit-field, the
+   bytes cf_offset .. + size_of of any other member — all inside [0, 8*sizeof): an earlier field ends
+   before a later one starts.  With C02_fields_noninterfere (coq/C02/Props.v,
+   C02_layout_fields_disjoint) this is "writing one bit-field never changes another field". *)
+Theorem C01_fields_disjoint : forall t ti,
+  in_class t -> union_free t -> cffi_layout t = Ok ti ->
+  ForallOrdPairs (fun c1 c2 => fend c1 <= fstart c2) (ti_fields ti) /\
+  chain 0 (ti_fields ti) (8 * Z.max 0 (ti_size ti)).
+Proof.
+  intros t ti Hc Hu E. pose proof (proj2 (layout_within t Hc ti E) Hu) as H.
+  split; [eapply chain_pairs; eauto|exact H].
+Qed.
+Print Assumptions C01_fields_disjoint.
+
+(* the second loop invariant itself, one iteration *)
+Theorem C01_field_step_within :
+  forall (A C : Prop) u sflags pack P last st named ft fi bits st',
+  flags_ok sflags -> pack_rel pack P -> (C -> u = false) ->
+  winv A C st ->
+  cffi_layout ft = Ok fi -> is_pow2 (ti_align fi) -> ti_align fi <= MAXAL ->
+  field_valid P named ft fi bits ->
+  (A -> Forall (field_within (ti_size fi)) (ti_fields fi)) ->
+  (A -> 0 <= bits -> ti_size fi <= ti_align fi) ->
+  (C -> named = false -> chain 0 (ti_fields fi) (8 * Z.max 0 (ti_size fi))) ->
+  field_step u sflags pack last st named ft fi bits = Ok st' -> winv A C st'.
+Proof. exact step_within. Qed.
+Print Assumptions C01_field_step_within.
 
 (* The hypothesis no_zero_size cannot be dropped: the full statement is FALSE of the faithful
    model (deliberate in cffi: "alignedsize == 0 -> 1").  Known finding zero_size_aggregate. *)
@@ -167,3 +232,30 @@ Proof.
   split; [vm_compute; reflexivity|].
   intros p [<-|[<-|[<-|[<-|[]]]]]; cbn; in_class_tac; try (right; pow2).
 Qed.
+
+(* non-vacuity of the two new hypotheses: example_a (which has an anonymous union) satisfies
+   bf_size_le_align; example_b (no union; bit-fields of three types sharing and not sharing units,
+   an anonymous struct with a bit-field) satisfies all of in_class, bf_size_le_align, union_free,
+   and its fields are the ranges gcc gives *)
+Definition example_b :=
+  TAgg false 0 [(true, t_char, 3); (true, t_int, 5); (true, t_short, 9); (true, t_ull, 60);
+                (false, TAgg false 0 [(true, t_short, -1); (true, t_int, 5)], -1); (true, t_char, -1)].
+Example C01_example_size_le_align : bf_size_le_align example_a /\ bf_size_le_align example_b.
+Proof.
+  split; cbn; repeat split; try (intros ? s a b Heq; inversion Heq; lia).
+Qed.
+Example C01_example_b_in_class : in_class example_b /\ union_free example_b.
+Proof.
+  split.
+  - cbn. in_class_tac;
+      (right; split; [lia|split; [reflexivity|split;
+         [do 2 eexists; split; [reflexivity|vm_compute; discriminate]
+         |intro; first [reflexivity|lia]]]]).
+  - cbn. repeat split; try discriminate.
+Qed.
+Example C01_example_b_ranges :
+  match cffi_layout example_b with
+  | Ok ti => (ti_size ti, map (fun c => (fstart c, fend c)) (ti_fields ti))
+  | Err _ => (0, [])
+  end = (24, [(0, 3); (3, 8); (16, 25); (64, 124); (128, 144); (144, 149); (160, 168)]).
+Proof. vm_compute. reflexivity. Qed.
